@@ -243,7 +243,7 @@ def const_of(e: Optional[ast.AST]):
     return "expr"
 
 
-LATER_RULES = ' Later rules: R16.4 emptiness by iteration; R16.6/R16.12 through helpers; R16.11 also while-else and remove_dead_ifs; R16.13 counts parameters; (R16.14) analysers keep no module-level memory; (R16.15) named callees and undecorated functions only.'
+LATER_RULES = ' Later rules: R16.4 emptiness by iteration; R16.6/R16.12 through helpers; R16.11 also while-else and remove_dead_ifs; R16.13 counts parameters; (R16.14) analysers keep no module-level memory; (R16.15) named callees and undecorated functions only. (R16.20) a with statement does not block through an exception raised in its body (the context manager may swallow it).'
 
 
 def check(prog: Program, tier: str) -> Result:
@@ -295,7 +295,8 @@ def check(prog: Program, tier: str) -> Result:
     _r16_17(prog, res)
     _r16_18(prog, res)
     _r16_19(prog, res)
-    res.floors.update({"R16.1": 60, "R16.2": 25, "R16.3": 10, "R16.4": 2, "R16.5": 1, "R16.6": 3, "R16.7": 8, "R16.8": 5, "R16.9": 2, "R16.10": 4, "R16.11": 1, "R16.12": 1, "R16.13": 1, "R16.15": 2, "R16.16": 3, "R16.17": 1, "R16.18": 4, "R16.19": 1})
+    _r16_20(prog, res)
+    res.floors.update({"R16.20": 1, "R16.1": 60, "R16.2": 25, "R16.3": 10, "R16.4": 2, "R16.5": 1, "R16.6": 3, "R16.7": 8, "R16.8": 5, "R16.9": 2, "R16.10": 4, "R16.11": 1, "R16.12": 1, "R16.13": 1, "R16.15": 2, "R16.16": 3, "R16.17": 1, "R16.18": 4, "R16.19": 1})
     res.analysed.update({"ast_kinds": len(kinds)})
     return res
 
@@ -935,6 +936,50 @@ def _r16_18(prog: Program, res: Result) -> None:
 
 
 # ------------------------------------------------------------------------------------------------ R16.19
+# ------------------------------------------------------------------------------------------------ R16.20
+def _r16_20(prog: Program, res: Result) -> None:
+    """`with cm: raise E` / `with cm: assert False` leave the with statement through cm.__exit__, which may swallow the
+    exception (contextlib.suppress, pytest.raises, unittest's assertRaises): what follows the with statement is reachable.
+    Obligation for the With kind of is_blocking: its answer does not count a child that "blocks" by raising - the branch
+    answers False, or excludes raise / assert (a flag handed to the recursive call that switches the exception test off, or
+    a search of the body for ast.Raise / ast.Assert in the branch)."""
+    fn = prog.func("core", "is_blocking")
+    node_p = fn.posparams[0] if fn.posparams else "node"
+    branches = [n for n in walk_own(fn.node) if isinstance(n, ast.If) and "ast.With" in norm(n.test) and "isinstance(" in norm(n.test)
+                and not any(k in norm(n.test) for k in ("ast.For", "ast.While", "ast.If,", "ast.Try"))]
+    if not branches:
+        res.ok("R16.20", fn.loc(), fn.fq, "with statements in is_blocking", "no branch for ast.With: the default answer (not blocking) applies", trivial=False)
+        return
+    # the exception test of the analyser: `if <is_exception>(node): return True` reached for every kind
+    exc_tests = []
+    for n in walk_own(fn.node):
+        if isinstance(n, ast.If) and any(isinstance(r, ast.Return) and isinstance(r.value, ast.Constant) and r.value.value is True for r in n.body):
+            calls = [c for c in ast.walk(n.test) if isinstance(c, ast.Call)]
+            raising = any((lambda r: r and r[0] == "fn" and ("ast.Raise" in norm(r[1].node)))(prog.resolve_call(c.func, fn.mod, fn)) for c in calls) or "ast.Raise" in norm(n.test)
+            if raising:
+                exc_tests.append(n)
+    for b in branches:
+        rets = [r for r in walk_body(b.body) if isinstance(r, ast.Return)]
+        if rets and all(isinstance(r.value, ast.Constant) and not r.value.value for r in rets):
+            res.ok("R16.20", fn.loc(b), fn.fq, "with statements in is_blocking", "a with statement never blocks")
+            continue
+        text = " ".join(norm(x) for x in b.body)
+        excludes = ("ast.Raise" in text and "ast.Assert" in text)
+        flagged = False
+        for t in exc_tests:
+            # `if flag and is_exception(node)`: the test is switched off by a parameter, and the With branch passes it falsy
+            params = {x.id for x in ast.walk(t.test) if isinstance(x, ast.Name) and x.id in fn.all_params and x.id != node_p}
+            for c in [c for x in b.body for c in ast.walk(x) if isinstance(c, ast.Call)]:
+                r = prog.resolve_call(c.func, fn.mod, fn)
+                if r and r[0] == "fn" and r[1].key == fn.key and any(k.arg in params and isinstance(k.value, ast.Constant) and not k.value.value for k in c.keywords):
+                    flagged = True
+        ok = excludes or flagged or not exc_tests
+        res.decide(ok, "R16.20", fn.loc(b), fn.fq, f"{short(b.body[-1], 70)} # when a with statement blocks",
+                   "children that block by raising are not counted" if ok else
+                   "a child that `blocks` by raising (raise, assert False) makes the whole with statement blocking, but the context manager may swallow the exception "
+                   "(contextlib.suppress, pytest.raises): the code after the with statement is reachable and is deleted as unreachable")
+
+
 def _r16_19(prog: Program, res: Result) -> None:
     """The whitelist is a set of NAMES.  A name with two definitions (one per branch of an `if sys.platform ..`, a method and a
     function, a nested and a module-level def) is whichever of them the call reaches; one pure definition says nothing about
@@ -1296,6 +1341,9 @@ def _positive(test: ast.AST) -> bool:
 from ..selftest import Variant  # noqa: E402
 
 VARIANTS: List[Variant] = [
+    Variant("with-blocks-only-without-raise-or-assert-inside", "REPAIRED", "core", '    if isinstance(node, ast.With):\n        return any(is_blocking(child, parent_type) for child in node.body)\n',
+            "    if isinstance(node, ast.With):\n        if any(walk(node, (ast.Raise, ast.Assert))):\n            return False\n        return any(is_blocking(child, parent_type) for child in node.body)\n", "R16.20"),
+    Variant("with-never-blocks", "REPAIRED", "core", '    if isinstance(node, ast.With):\n        return any(is_blocking(child, parent_type) for child in node.body)\n', "    if isinstance(node, ast.With):\n        return False\n", "R16.20"),
     Variant("twice-defined-functions-whitelisted-again", "FIRE", "parsing", "            if definition_count[node.name] > 1:\n                continue  # Which of the definitions a call means is not known\n", "", "R16.19"),
     Variant("twice-defined-classes-whitelisted-again", "FIRE", "parsing", "        if definition_count[node.name] > 1 or node.name in defined_names:\n            continue  # Which of the definitions a call means is not known\n\n", "", "R16.19"),
     Variant("census-of-function-definitions-only", "FIRE", "parsing", "        for node in core.walk(root, (ast.FunctionDef, ast.AsyncFunctionDef, ast.ClassDef))\n    )\n    changes = True", "        for node in core.walk(root, (ast.FunctionDef, ast.AsyncFunctionDef))\n    )\n    changes = True", "R16.19"),
